@@ -38,9 +38,14 @@ def func(p, q=1):
     return r
 
 
+def twice(p):
+    return p * 2
+
+
 var = func(1, 2)
 '''
-B_SRC = '''import a
+B_SRC = '''import sys
+import a
 import outmod
 from pkg import c
 
@@ -50,13 +55,15 @@ w = a.func(3)
 u = outmod.outfunc(w)
 t = c.cfunc()
 o.attr = v + 1
+n = sys.maxsize
+d = w * 2
 '''
 C_SRC = '''import a
 
 
 def cfunc():
     k = a.func(1)
-    return k
+    return k * 2
 '''
 IG_SRC = '''import a
 x = a.func(5)
@@ -154,7 +161,7 @@ def token_class(src, off):
     return "space"
 
 
-KINDS = ["rename", "rename_restricted", "inline", "move", "move_method", "change_signature", "encapsulate_field",
+KINDS = ["rename", "rename_restricted", "use_function_restricted", "inline_restricted", "inline", "move", "move_method", "change_signature", "encapsulate_field",
          "introduce_factory", "local_to_field", "method_object", "introduce_parameter", "use_function",
          "extract_method", "extract_variable"]
 MODULE_KINDS = ["rename_package_onto_existing_dir", "organize_imports", "expand_star", "froms_to_imports", "relatives_to_absolutes",
@@ -170,6 +177,11 @@ def build_request(project, kind, res, off):
         return lambda: rename.Rename(project, res, off).get_changes("zz_new")
     if kind == "rename_restricted":
         return lambda: rename.Rename(project, res, off).get_changes("zz_new", resources=[res])
+    if kind == "use_function_restricted":
+        # restricted to the module under the cursor: nothing else may be announced or touched
+        return lambda: usefunction.UseFunction(project, res, off).get_changes(resources=[res])
+    if kind == "inline_restricted":
+        return lambda: inline.create_inline(project, res, off).get_changes(resources=[res])
     if kind == "inline":
         return lambda: inline.create_inline(project, res, off).get_changes()
     if kind == "move":
@@ -304,6 +316,9 @@ def run_batch(arg):
                 reg = region(rel)
                 if reg == "project" and project.is_ignored(r):
                     reg = "ignored"
+                if kind.endswith("_restricted") and reg == "project" and os.path.normpath(r.real_path) != \
+                        os.path.normpath(res.real_path):
+                    reg = "excluded-by-resources"      # the request was restricted to resources=[res]
                 announced.append({"id": os.path.normpath(rel), "region": reg})
             # a listed folder stands for everything below it (moving / removing a folder)
             folder_ids = []
